@@ -48,6 +48,7 @@ func vEvents(contract, name string) [][]any                { return nil }
 func vEventCount() int                                     { return 0 }
 func vEventNames() []string                                { return nil }
 func vEffects() bool                                       { return false }
+func vStorageCount(contract string) int                    { return 0 }
 func vAdvanceTime(ms int)                                  {}
 func vAdvance(blocks int)                                  {}
 func vSetIR(n int)                                         {}
@@ -661,6 +662,36 @@ func (e *Engine) vcall(fn *ssa.Function, s *St, in *ssa.Call, ip int, short stri
 		cnt := I(0)
 		for n := s.notifs; n != nil; n = n.prev {
 			cnt = Add(cnt, Ite(n.g(), I(1), I(0)))
+		}
+		return set(IntV{cnt})
+	case "vStorageCount": // number of items in the contract's storage (raw scan)
+		c := tag()
+		if e.model != nil {
+			return set(IntV{I(int64(e.world.storageCount(c)))})
+		}
+		nsb := I(int64(e.index(c)))
+		type ent struct {
+			key   []*T
+			val   Value
+			guard *T
+		}
+		var log []ent
+		for n := s.store; n != nil; n = n.prev {
+			if n.key[0] == nsb {
+				log = append(log, ent{n.key, n.val, n.g()})
+			}
+		}
+		cnt := I(0)
+		for i := len(log) - 1; i >= 0; i-- { // oldest .. newest; log[0] is the newest
+			en := log[i]
+			if en.val == nil {
+				continue
+			}
+			live := en.guard
+			for j := i - 1; j >= 0; j-- {
+				live = And(live, Not(And(log[j].guard, bytesEq(log[j].key, en.key))))
+			}
+			cnt = Add(cnt, Ite(live, I(1), I(0)))
 		}
 		return set(IntV{cnt})
 	case "vEffects":
